@@ -934,7 +934,44 @@ func alterBoundary(l leaf, b int) string {
 
 // ---------- (c) whole key proofs ----------
 
+// c17Forged: a cheating prover who knows the factorisation of N = P*Q with Q = 2r^3+1 (prime, not a safe prime) and sets the
+// Pedersen commitment for q to 0 modulo the group prime, so that the relations that would expose Q hold vacuously
+// (keyproof/verif_forge.go). The verifier must refuse the proof; the model is asked the same question.
+func c17Forged(s *Suite) {
+	for variant := 0; variant < 2; variant++ {
+		n, bases, proof, ok := keyproof.VerifForgedKeyProof(variant)
+		if !ok {
+			s.Count("forged-key-proof:prover-stuck")
+			continue
+		}
+		kind := []string{"commitment-for-q=0", "commitment-for-q=GroupPrime"}[variant]
+		st := keyproof.NewValidKeyProofStructure(n, bases)
+		gpP := proof.GroupPrime.ProbablyPrime(80)
+		hpP := new(gbig.Int).Rsh(proof.GroupPrime, 1).ProbablyPrime(80)
+		in := L{n, dumpBigs(bases), b2i(gpP), b2i(hpP), b2i(n.ProbablyPrime(80)), dValidKey(proof)}
+		accepted, panicked := false, false
+		func() {
+			defer func() {
+				if r := recover(); r != nil {
+					panicked = true
+				}
+			}()
+			accepted = st.VerifyProof(proof)
+		}()
+		var out V = okV(b2i(accepted))
+		if panicked {
+			out = panicV()
+		}
+		s.Add(1701, "whole:forged:"+kind, false, in, out)
+		s.Nontrivial["forged"+kind] = true
+		if accepted {
+			s.Violate("C17:forged-key-proof-accepted:"+kind, fmt.Sprintf("key-correctness proof accepted for N=%v whose factor Q = 2r^3+1 is not a safe prime (cheating prover with %s)", n, kind), L{n, kind})
+		}
+	}
+}
+
 func c17Whole(s *Suite, rng *Rng, thorough bool) {
+	c17Forged(s)
 	nKeys := 1
 	nAlt := 10
 	if thorough {
